@@ -154,7 +154,7 @@ Support(method, kind, hrep) ==
   ELSE IF method = "integrate" THEN
          (IF hrep \in {"dense", "sparse", "callable"} THEN "must"
           ELSE IF hrep = "linop" /\ kind = "ket" THEN "must" ELSE "may")
-  ELSE IF method = "expm" THEN (IF hrep \in {"dense", "sparse"} /\ kind = "ket" THEN "must" ELSE "may")
+  ELSE IF method = "expm" THEN (IF hrep \in {"dense", "sparse"} THEN "must" ELSE "may")   \* kets and density operators
   ELSE "may"
 
 \* the method that actually evolves: a pre-diagonalised Hamiltonian is always evolved by 'solve'
@@ -168,24 +168,28 @@ MustAllowStep(eff, prev, next) == eff = "solve" \/ next >= prev
 (* Transcription of quimb/evo.py (Evolution.__init__, _setup_solved_ham,    *)
 (* _start_integrator, the _update_to methods, update_to / at_times).        *)
 (* tauL, tauR = evolution time that has been applied on the left, right of  *)
-(* the initial state.  Three behaviours of the pinned commit break the      *)
-(* property; each is a switch so that TLC can show the break (self-test     *)
-(* configurations) and the main configurations check the repaired design:   *)
-(*  modes.expm_dop : "left"   - pinned: density operators get expm_multiply *)
-(*                              on the left only                            *)
-(*                   "both"   - repaired: two sided                         *)
-(*                   "reject" - repaired: constructor refuses               *)
-(*  modes.solve2   : "crash"  - pinned: `evals, evecs = ham` succeeds for a *)
+(* the initial state.  Behaviours that break (or broke) the property are     *)
+(* switches, so that TLC can show the break (MC_dev_* self-test             *)
+(* configurations, which must fail); the main configurations and the Trace  *)
+(* spec's PinnedModes describe the code as it is now:                       *)
+(*  modes.expm_dop : "left"   - before fix 255363ee: density operators got  *)
+(*                              expm_multiply on the left only              *)
+(*                   "both"   - now: two sided                              *)
+(*                   "reject" - (alternative repair: constructor refuses)   *)
+(*  modes.solve2   : "crash"  - before fix 24ddc1de: `evals, evecs = ham`   *)
+(*                              succeeded for a                             *)
 (*                              2x2 matrix (two rows): a sparse matrix dies *)
 (*                              in the constructor, a dense one in every    *)
 (*                              update, after self._t was already moved     *)
-(*                   "ok"     - repaired                                    *)
-(*  modes.progbar0 : "crash"  - pinned: with progbar=True the integrator's  *)
+(*                   "ok"     - now: isinstance test                        *)
+(*  modes.progbar0 : "crash"  - now (KF-C18-3): with progbar=True the       *)
+(*                              integrator's                                *)
 (*                              solout divides by the requested time span;  *)
 (*                              update_to(t) with t = evo.t raises, and the  *)
 (*                              solout stays installed for later at_times   *)
 (*                   "ok"     - repaired                                    *)
-(*  modes.int_repeat: "drift" - pinned, abstracted: the stepper may land    *)
+(*  modes.int_repeat: "drift" - now (KF-C18-4), abstracted: the stepper may  *)
+(*                              land                                        *)
 (*                              one ulp above a request; repeating the      *)
 (*                              request is then a backward request, which   *)
 (*                              dop853 answers with a forward step of       *)
@@ -206,7 +210,7 @@ ImplNew(kind, method, hrep, dim, t0, pb, modes) ==
       THEN IF hrep = "linop" THEN rej("TypeError")
            ELSE IF timedep THEN rej("TypeError")
            ELSE IF hrep = "tuple" THEN solved
-           ELSE IF hrep = "lazy" THEN rej("TypeError")                \* cannot unpack
+           ELSE IF hrep = "lazy" THEN rej("AttributeError")           \* no .toarray()
            ELSE IF dim = 2 /\ modes.solve2 = "crash"                   \* rows unpack as (evals, evecs)
                 THEN IF hrep = "sparse" THEN rej("ValueError")
                      ELSE [base EXCEPT !.eff = "solve", !.upd = "solved_broken"]
@@ -251,5 +255,7 @@ ImplUpdate(st, t, via, modes) ==
 \* the book-keeping says "evolved by exactly t - t0, on both sides"
 ImplTimeOK(s) == s.tauL = ImplT(s) - s.t0 /\ (s.kind = "dop" => s.tauR = ImplT(s) - s.t0)
 
-PinnedModes   == [expm_dop |-> "left", solve2 |-> "crash", progbar0 |-> "crash", int_repeat |-> "ok"]
+\* the code as it is now (after the fix: commits for expm + density operator and for the 2x2 unpack test;
+\* the progress-bar defect is still there; the repeated-time drift is rare, see above)
+PinnedModes   == [expm_dop |-> "both", solve2 |-> "ok", progbar0 |-> "crash", int_repeat |-> "ok"]
 =============================================================================
